@@ -13,7 +13,7 @@ RECURSIVE SeqsUpTo(_, _)
 SeqsUpTo(S, n) == IF n = 0 THEN {<<>>}
                   ELSE LET P == SeqsUpTo(S, n - 1) IN P \cup {Append(p, x) : p \in {q \in P : Len(q) = n - 1}, x \in S}
 VARIABLE text
-Init == text \in SeqsUpTo(Lines, MaxLines)
+Init == \E n \in 0..MaxLines : text \in [1..n -> Lines]      \* every text of up to MaxLines lines
 Spec == Init /\ [][UNCHANGED text]_text
 MapExact == Exactly(text, FromText(text))
 \* spelling does not matter: the same value written differently is the same key
